@@ -630,6 +630,20 @@ class Interp:
                 env.ctypes[p.arg] = ct
         for k, v in bound.items():
             self.store_name(env, k, v, param=True)
+        # fused types: bind the type name to the specialisation selected by the argument
+        fused = getattr(f.module, "fused", None) if f.module is not None else None
+        if fused:
+            from .heap import CTypeObj
+            for p in a.posonlyargs + a.args + a.kwonlyargs:
+                ct = self.ann_ctype(p.annotation)
+                if ct is None:
+                    continue
+                base = ct.replace("const ", "").split("[")[0].strip()
+                if base in fused:
+                    val = env.vars.get(p.arg)
+                    actual = val.ctype if isinstance(val, (SymArr, CV)) else None
+                    if actual is not None:
+                        env.vars[base] = CTypeObj.get(norm_ctype(actual))
 
     def ann_ctype(self, ann):
         if ann is None:
